@@ -13,8 +13,8 @@ def build(ctx):
 def run(ctx):
     exe = build(ctx)["h_c20"]
     th = ctx.tier == "thorough"
-    ctx.fan(exe, "single", 48 if th else 6, chunk=1, timeout=600)
-    ctx.fan(exe, "multi", 10000 if th else 150, timeout=120)
+    ctx.fan(exe, "single", 48 if th else 12, chunk=1, timeout=600)
+    ctx.fan(exe, "multi", 10000 if th else 400, timeout=120)
     s = ctx.stats
     ctx.assumptions += ["write(2) outcomes are injected at link level (ld --wrap=write) for every write() call made by mtbl/writer.c; partial writes really write n bytes",
                         "a hard error is persistent only at the faulted call index (one-shot): a writer that silently retries and finishes is reported, as the statement forbids reporting success"]
@@ -23,7 +23,7 @@ def run(ctx):
              "+ every call index x hard error {EIO, ENOSPC, EBADF, return 0} in a forked child that must not finish normally; multi: seeded plans with per-call fault probability 0.1/0.5/0.9 and one-byte writes on "
              "small/medium, pooled/unpooled tables; distinct_nontrivial = distinct tables (x their plans counted in evaluations)",
         evaluations=s.get("plans", 0),
-        floors={"single.tables": 4, "single.write_calls_enumerated": 100, "single.trailer.partial(1)": 4, "single.index-crc.EINTRx3": 4, "single.crc.partial(n-1)": 20,
+        floors={"single.tables": 10, "single.write_calls_enumerated": 100, "single.trailer.partial(1)": 4, "single.index-crc.EINTRx3": 4, "single.crc.partial(n-1)": 20,
                 "single.payload.partial(n/2)": 20, "single.length-prefix.EINTRx1": 20, "hard.stopped": 100, "multi.plans.one-byte": 50, "multi.plans_pooled": 50,
                 "multi.partial_writes": 1000, "multi.eintr": 500},
         exhaustive=False,
